@@ -537,12 +537,25 @@ def _patch_engine():
         if isinstance(f, ast.Attribute):
             if txt in ("cython.cast", "typing.cast"):
                 return True
+            if self.fn_field(f, st) is not None:
+                return True
             m = f.attr
             if m in ("get", "isdisjoint", "issubset", "issuperset", "index", "count", "keys", "values", "items", "startswith", "endswith", "__contains__", "__len__"):
                 # pure container observers (only when receiver is a known container; contract methods handled above)
                 return self.recv_is_builtin_container(f.value, st)
         return False
     E.call_is_pure = call_is_pure
+
+    def fn_field(self, f, st):
+        """f = <obj>.<attr> where attr is a field of contract type 'fn' (a stored callable): the field value, else None"""
+        try:
+            base = self.pev(f.value, st, Mode(spec=True))
+        except Exception:
+            return None
+        if base.kind == "v" and base.hint in CLASSES and self.lookup_field_type(CLASSES[base.hint], f.attr) == "fn":
+            return self.read_field(st, base, f.attr, Mode(spec=True))
+        return None
+    E.fn_field = fn_field
 
     def recv_is_builtin_container(self, node, st):
         try:
@@ -955,6 +968,9 @@ def _patch_engine():
                     return SV("seq", self.as_seq(a, st) if a is not None else L.sempty)
                 return SV("set", self.as_set(a, st) if a is not None else K(V, False))
         if isinstance(f, ast.Attribute):
+            ff = self.fn_field(f, st)
+            if ff is not None:
+                return self.apply_fn(ff, [self.pev(a, st, m) for a in args])
             recv = self.pev(f.value, st, m)
             h = getattr(self, "pm_" + f.attr, None)
             if h is not None:
@@ -1741,6 +1757,12 @@ def _patch_exec():
     E.ex_Continue = ex_Continue
 
     def ex_Delete(self, s, st, ctx):
+        if len(s.targets) == 1 and isinstance(s.targets[0], ast.Attribute):
+            # del obj.attr : the field holds the distinguished value <deleted> afterwards (AttributeError of a missing
+            # attribute is not modelled)
+            tgt = s.targets[0]
+            self.assumptions.add("`del obj.attr` is modelled as storing a distinguished <deleted> value; AttributeError when the attribute is already missing is not modelled")
+            return self.assign(tgt, sv_v(L.sentinel("deleted_attr"), "sentinel"), st, ctx, ctx.k)
         if len(s.targets) != 1 or not isinstance(s.targets[0], ast.Subscript):
             raise OutOfSubset("del form")
         tgt = s.targets[0]
